@@ -399,6 +399,10 @@ class Machine:
         if k == 'move':
             p = o[1]
             return fr.L[p[1]] if p[0] == 'local' else self.place_ref(fr, p).get()
+        if fr.tyargs and 'closure@' in o[1]:
+            v = self._const(o[1], o[2], fr)
+            v.ty = v.ty + '|' + ';'.join(f'{a}={b}' for a, b in sorted(fr.tyargs.items()))
+            return v
         return self.const(o[1], o[2], fr)
 
     def const(self, c, fn, fr=None):
@@ -469,7 +473,9 @@ class Machine:
             if d is None: raise Unsupported(f'discriminant of non-enum {v!r}')
             return d
         if k == 'agg': return Agg(r[1], r[2], [self.operand(fr, x) for x in r[3]])
-        if k == 'closure': return Agg(r[1], None, [self.operand(fr, x) for x in r[2]])
+        if k == 'closure':
+            tag = r[1] + ('|' + ';'.join(f'{a}={b}' for a, b in sorted(fr.tyargs.items())) if fr.tyargs else '')
+            return Agg(tag, None, [self.operand(fr, x) for x in r[2]])
         if k == 'repeat':
             v = self.operand(fr, r[1]); return Agg('array', None, [copyval(v) for _ in range(r[2])])
         if k == 'cast':
@@ -700,6 +706,9 @@ class Machine:
                 ty, tr = split_as(inner)
                 return base_name(ty), base_name(tr), meth, callee, ta, ty.strip()
             return base_name(inner), None, meth, callee, ta, inner
+        mi = re.search(r'<impl ([^\[\]]*?)>::(\w+)(?:::<.*>)?$', callee)
+        if mi and f'{base_name(mi.group(1))}::{mi.group(2)}' in self.prog.byname:
+            return base_name(mi.group(1)), None, mi.group(2), callee, self.turbofish(callee), f'{base_name(mi.group(1))}::{mi.group(2)}'
         n = strip_generics(callee)
         parts = n.split('::')
         ty = parts[-2] if len(parts) > 1 else None
@@ -827,10 +836,10 @@ class Machine:
         if f is None: raise Unsupported('closure body not found ' + clo.ty)
         p0 = f.params[0].split(': ', 1)[1]
         self_arg = Ref([clo], 0) if p0.startswith('&') else clo
-        tyb = getattr(clo, 'tyargs', None)
-        return self.call(f, [self_arg] + list(args), self.closure_ty.get(id(clo)))
-
-    closure_ty = {}
+        tyb = None
+        if '|' in clo.ty:
+            tyb = dict(x.split('=', 1) for x in clo.ty.split('|', 1)[1].split(';') if x)
+        return self.call(f, [self_arg] + list(args), tyb)
 
 def split_as(inner):
     """split 'Type as Trait' at depth 0"""
